@@ -534,6 +534,20 @@ func (d *drv) do(a M) {
 	case "shutdown":
 		w.Stop()
 		d.dead = true
+	case "closeTopic":
+		// Topic.Close takes the topic's lock, which a Publish waiting for readiness holds (read side) for the whole wait: it
+		// would block on a mutex inside the bubble.  The stimulus is skipped while a publish on the topic is pending.
+		busy := false
+		d.mu.Lock()
+		for _, pc := range d.pubs {
+			if !pc.done && pc.topic == gets(a, "t") {
+				busy = true
+			}
+		}
+		d.mu.Unlock()
+		if !busy {
+			own = false
+		}
 	default:
 		own = false
 	}
